@@ -530,19 +530,47 @@ fn main() {
     classify_witness();
     classify_lattice(&mut st, &mut r, big);
     let alt = Consts { prep: 4, min: Zatoshis::const_from_u64(COIN), max: Zatoshis::const_from_u64(100 * COIN) };
-    let alt2 = Consts { prep: 2, min: Zatoshis::const_from_u64(1), max: Zatoshis::const_from_u64(21_000_000 * COIN) };
+    // zero lower bound: regression for the fixed is_canonical_within hang (value 0 must be answered non-canonical)
+    let alt2 = Consts { prep: 2, min: Zatoshis::ZERO, max: Zatoshis::const_from_u64(21_000_000 * COIN) };
     for _ in 0..a.budget(2000, 20_000) {
         let (c, prep): (&dyn PoolMigrationConstants, usize) = match r.below(4) { 0 => (&alt, 4), 1 => (&alt2, 2), _ => (&Defaults, 16) };
         let e = rand_ev(&mut r, prep);
-        let o = run_classify(&e, c);
+        // value 0 under a zero lower bound used to loop forever (fixed in 7dcaa30): run it in a
+        // thread and report "no answer" (None) instead of hanging the harness if it ever returns
+        let guarded = |e: &Ev| -> Option<Zip318Classification> {
+            if c.max_residual_value() == Zatoshis::ZERO && e.value == Some(0) {
+                let (prep_n, lo, hi, ev) = (c.preparation_tx_actions(), c.max_residual_value(), c.denomination_cap(), *e);
+                let (tx, rx) = std::sync::mpsc::channel();
+                std::thread::spawn(move || {
+                    let cc = Consts { prep: prep_n, min: lo, max: hi };
+                    let _ = tx.send(run_classify(&ev, &cc));
+                });
+                rx.recv_timeout(std::time::Duration::from_millis(600)).ok().flatten()
+            } else {
+                run_classify(e, c)
+            }
+        };
+        let o = guarded(&e);
         st.out(&format!("classify:{:?}", o));
         case(format!("Classify {} {} {}", consts_term(c), e.term(), cls_term(o)));
         // a random strengthening of e
         let mut e2 = rand_ev(&mut r, prep);
         macro_rules! keep { ($f:ident) => { if e.$f.is_some() { e2.$f = e.$f; } }; }
         keep!(source); keep!(dest); keep!(other); keep!(sts); keep!(value); keep!(expiry); keep!(anchor); keep!(fee);
-        let o2 = run_classify(&e2, c);
+        let o2 = guarded(&e2);
         case(format!("ClassifyPair {} {} {} {} {}", consts_term(c), e.term(), e2.term(), cls_term(o), cls_term(o2)));
+    }
+
+    // regression (fixed hang, 7dcaa30): a crossing of value 0 under a zero lower bound must be refuted, not loop
+    {
+        let e = Ev { source: Some(2), dest: Some(1), other: Some(false), sts: None, value: Some(0), expiry: Some(true), anchor: None, fee: None };
+        let (tx, rx) = std::sync::mpsc::channel();
+        std::thread::spawn(move || {
+            let cc = Consts { prep: 2, min: Zatoshis::ZERO, max: Zatoshis::const_from_u64(21_000_000 * COIN) };
+            let _ = tx.send(run_classify(&e, &cc));
+        });
+        let o = rx.recv_timeout(std::time::Duration::from_millis(600)).ok().flatten();
+        case(format!("Classify {} {} {}", consts_term(&alt2), e.term(), cls_term(o)));
     }
 
     // --- expiry / grid on random heights ---
@@ -706,7 +734,7 @@ fn main() {
             for &hi in &his {
                 for k in 0..40 {
                     let v = if k < 12 { [0u64, 1, 2, 3, 5, 10, 20, 50, 1_000_000, COIN, 10_000 * COIN, max_money][k] } else { rand_value(&mut r) };
-                    if lo == 0 && v == 0 { continue; }        // probed below with a timeout
+                    if lo == 0 && v == 0 { continue; }        // probed below in a thread with a timeout (it used to hang)
                     let o = catch(|| canon(lo, hi, v));
                     case(format!("CanonDenom {} {} {} {}", lo, hi, v, opt(o.map(boolc))));
                 }
